@@ -1,6 +1,7 @@
 package main
 
 import (
+	"sort"
 	"fmt"
 	"go/constant"
 	"go/token"
@@ -17,10 +18,11 @@ func init() {
 	register(&Check{
 		ID:  "C27",
 		Run: runC27,
-		Explanation: "Decides where a positive verdict can come from and what it is conditioned on: (R1 who-may-write) SignatureStatusValid is stored into SignatureValidationResult.Status only in sign.finalizeLocalSignatureResult and model.False into DocModified only in sign.markDocumentUnmodified; (R2 evidence gates) every store DigestVerified=true and every markDocumentUnmodified call in the three handlers (pkcs7, pkcs1, document timestamp) lies on the success edge of that handler's digest comparison, every SignatureAuthenticated=true on the success edge of its signature verification; applyP7DigestEvidence returns true only on the err==nil edge; in verifyP7Digest every nil-error return passes the success edge of pkcs7.VerifyMessageDigestDetached or VerifyMessageDigestEmbedded; in pkcs7.checkSignature every return that can be nil has attempted VerifyMessageDigestDetached whenever signed attributes are present (its mismatch is carried into the result) — the message-digest binding cannot be skipped by a flag; finalizeLocalSignatureResult stores Valid only after assessment.complete() was true, and complete() reads DigestVerified and SignatureAuthenticated; (R3 what is hashed) sign.signedData returns bytes only after validateByteRange and validateContentsGap succeeded and the bytes come from bytesForByteRange on the same array; bytesForByteRange copies exactly (values[0],values[1]) and (values[2],values[3]). NOT decided: hash/PKCS#7/RSA arithmetic and ASN.1 parsing, exhaustive byte flips.",
+		Explanation: "Decides where a positive verdict can come from and what it is conditioned on: (R1 who-may-write) SignatureStatusValid is stored into SignatureValidationResult.Status only in sign.finalizeLocalSignatureResult and model.False into DocModified only in sign.markDocumentUnmodified; (R2 evidence gates) every store DigestVerified=true and every markDocumentUnmodified call in the three handlers (pkcs7, pkcs1, document timestamp) lies on the success edge of that handler's digest comparison, every SignatureAuthenticated=true on the success edge of its signature verification; applyP7DigestEvidence returns true only on the err==nil edge; in verifyP7Digest every nil-error return passes the success edge of pkcs7.VerifyMessageDigestDetached or VerifyMessageDigestEmbedded; in pkcs7.checkSignature every return that can be nil has attempted VerifyMessageDigestDetached whenever signed attributes are present (its mismatch is carried into the result) — the message-digest binding cannot be skipped by a flag; finalizeLocalSignatureResult stores Valid only after assessment.complete() was true, and complete() reads DigestVerified and SignatureAuthenticated; (R3 what is hashed) sign.signedData returns bytes only after validateByteRange and validateContentsGap succeeded and the bytes come from bytesForByteRange on the same array; bytesForByteRange copies exactly (values[0],values[1]) and (values[2],values[3]). (R4) sign.contentsGapMatches compares the whole excluded gap: the compared range is gap[1:len(gap)-1] (high bound from len(gap), not from a search inside the gap) and gap[len(gap)-1] is tested — a matched prefix would leave unsigned, unchecked bytes in the gap (signature wrapping). NOT decided: hash/PKCS#7/RSA arithmetic and ASN.1 parsing, exhaustive byte flips.",
 		Rules: []string{
 			"C27.R1 WMC: positive verdict stores only in two functions",
 			"C27.R2 MPT: verdict flags gated on digest comparison and signature verification success",
+			"C27.R4 shape: the excluded /Contents gap is compared in full",
 			"C27.R3 MPT/flow: signed bytes = both byte ranges, after range and gap validation",
 		},
 		Assumptions: []string{"crypto/x509, crypto/rsa etc. verify what they are given"},
@@ -30,10 +32,12 @@ func init() {
 	register(&Check{
 		ID:  "C28",
 		Run: runC28,
-		Explanation: "Decides the boundary gates: (R1) in validateSignature and validateURSignature the handler call is reached only on the true edge of recordSignedRevisionBoundaryEvidence and every return after the handler succeeded passes applyHistoricalRevisionReporting; (R2) recordSignedRevisionBoundaryEvidence returns true for a current-revision signature only on signedRevisionEnd == currentFileSize, the evidence is built from arr[2]+arr[3] and ctx.Read.FileSize, and — sibling cross-check by concrete evaluation over increment in {0..3} x documentTimestamp in {false,true} — whenever applyHistoricalRevisionReporting would NOT downgrade a positive result (increment <= 0 or a document timestamp), collectSignedRevisionBoundaryEvidence marks the signature as currentRevision, so the strict end-of-file equality applies: no signature type/increment combination escapes both guards; (R3) validateByteRange rejects values[0] != 0 and end1 > values[2]; validateContentsGap returns nil only after contentsGapMatches returned true on bytes copied from [end1, values[2]); contentsGapMatches can leave its scan loop early only by returning false and otherwise returns i == len(contents) (no break that accepts a prefix match); signedData calls both validators before reading. NOT decided: arithmetic of offsets beyond the comparisons named, xref/incremental-update parsing that computes `increment`.",
+		Explanation: "Decides the boundary gates: (R1) in validateSignature and validateURSignature the handler call is reached only on the true edge of recordSignedRevisionBoundaryEvidence and every return after the handler succeeded passes applyHistoricalRevisionReporting; (R2) recordSignedRevisionBoundaryEvidence returns true for a current-revision signature only on signedRevisionEnd == currentFileSize, the evidence is built from arr[2]+arr[3] and ctx.Read.FileSize, and — sibling cross-check by concrete evaluation over increment in {0..3} x documentTimestamp in {false,true} — whenever applyHistoricalRevisionReporting would NOT downgrade a positive result (increment <= 0 or a document timestamp), collectSignedRevisionBoundaryEvidence marks the signature as currentRevision, so the strict end-of-file equality applies: no signature type/increment combination escapes both guards; (R3) validateByteRange rejects values[0] != 0 and end1 > values[2]; validateContentsGap returns nil only after contentsGapMatches returned true on bytes copied from [end1, values[2]); contentsGapMatches can leave its scan loop early only by returning false and otherwise returns i == len(contents) (no break that accepts a prefix match); signedData calls both validators before reading. (R4) the strict ByteRange parser sign.byteRangeValues (and the helpers it calls) asserts elements to types.Integer only, the kind the revision-boundary check reads (that check skips what it cannot read and relies on the strict parser to reject it); (R5) every value stored into an increment field (URSignatureIncrement, Incr …) is an xref-section index handed on unchanged (constant, parameter, field load, or the return of a function with that property), never the result of arithmetic: a negative increment is neither current (== 0) nor historical (> 0) and skips both protections. NOT decided: arithmetic of offsets beyond the comparisons named, xref/incremental-update parsing that computes `increment`.",
 		Rules: []string{
 			"C28.R1 MPT: boundary evidence before the handler; historical downgrade after it",
 			"C28.R2 shape + sibling evaluation: strict end-of-file equality for every non-downgraded case",
+			"C28.R4 TABLE: ByteRange element kinds accepted by the strict parser = kinds read by the boundary check",
+			"C28.R5 flow: increment numbers reach validation unadjusted",
 			"C28.R3 shape: byte-range and gap validators",
 		},
 		Assumptions: []string{"ctx.Read.FileSize is the size of the file that was read", "the increment number passed by ValidateSignatures identifies the xref section"},
@@ -63,6 +67,8 @@ func runC27(c *Ctx) {
 	r.MinInst["C27.R1"] = 2
 	r.MinInst["C27.R2"] = 10
 	r.MinInst["C27.R3"] = 3
+	r.MinInst["C27.R4"] = 1
+	checkGapComparedInFull(c)
 	valid := modelConst(p, "SignatureStatusValid")
 	mFalse := modelConst(p, "False")
 	if valid == nil || mFalse == nil {
@@ -586,6 +592,10 @@ func runC28(c *Ctx) {
 	r.MinInst["C28.R1"] = 4
 	r.MinInst["C28.R2"] = 3
 	r.MinInst["C28.R3"] = 5
+	r.MinInst["C28.R4"] = 1
+	r.MinInst["C28.R5"] = 1
+	checkByteRangeKinds(c)
+	checkIncrementsUnadjusted(c)
 	// ---- R1
 	for _, fid := range []string{"pkg/pdfcpu.validateSignature", "pkg/pdfcpu.validateURSignature"} {
 		fn := p.Func(fid)
@@ -1013,4 +1023,190 @@ func simulateReachesStore(fn *ssa.Function, env evalEnv) (stores bool, ok bool) 
 		}
 	}
 	return false, false
+}
+
+// ---------------- round 2 of seeding: C27.R4, C28.R4, C28.R5 ----------------
+
+// checkGapComparedInFull (C27.R4): sign.contentsGapMatches compares the *whole* excluded gap with the /Contents hex string:
+// the compared range ends at len(gap)-1 (every Slice of the gap has a high bound computed from len(gap), not from a search
+// inside the gap) and the last byte of the gap is tested against '>'. If only a prefix of the gap is matched, bytes can be
+// hidden in the unsigned gap (a second /ByteRange, for instance) and a wrapped signature verifies.
+func checkGapComparedInFull(c *Ctx) {
+	p, r := c.P, c.R
+	fid := "pkg/pdfcpu/sign.contentsGapMatches"
+	fn := p.Func(fid)
+	if fn == nil || len(fn.Params) == 0 {
+		r.Bad("C27.R4", fid, "anchor", "", "UNRESOLVED-ANCHOR")
+		return
+	}
+	gap := fn.Params[0]
+	fromLen := func(v ssa.Value) bool {
+		sub, ok := v.(*ssa.BinOp)
+		if !ok || sub.Op != token.SUB {
+			return false
+		}
+		if k, ok := constInt(sub.Y); !ok || k != 1 {
+			return false
+		}
+		la := lenArgOf(sub.X)
+		return la == ssa.Value(gap)
+	}
+	nSlices, bad := 0, ""
+	lastTested := false
+	eachInstr(fn, func(_ *ssa.BasicBlock, _ int, i ssa.Instruction) {
+		switch x := i.(type) {
+		case *ssa.Slice:
+			if x.X != ssa.Value(gap) {
+				return
+			}
+			nSlices++
+			if x.High == nil || !fromLen(x.High) {
+				bad = p.Pos(x.Pos())
+			}
+		case *ssa.IndexAddr:
+			if x.X == ssa.Value(gap) && fromLen(x.Index) {
+				lastTested = true
+			}
+		case *ssa.Index:
+			if x.X == ssa.Value(gap) && fromLen(x.Index) {
+				lastTested = true
+			}
+		}
+	})
+	pos := p.Pos(fn.Pos())
+	switch {
+	case nSlices == 0:
+		r.Bad("C27.R4", fid, "whole gap", pos, "UNRESOLVED-ANCHOR: the gap is not sliced")
+	case bad != "" || !lastTested:
+		r.Bad("C27.R4", fid, "whole gap", pos, "the excluded /Contents gap is not compared in full (range end not len(gap)-1, or the last gap byte is not tested): bytes behind the matched prefix are neither signed nor checked, which admits signature wrapping (a duplicate /ByteRange hidden in the gap)")
+	default:
+		r.OK("C27.R4", fid, "whole gap", pos, "the compared range is gap[1:len(gap)-1] and gap[len(gap)-1] is tested", true)
+	}
+}
+
+// checkByteRangeKinds (C28.R4): the strict ByteRange parser (sign.byteRangeValues and what it calls) accepts integer elements
+// only — the same kinds the revision-boundary check (collectSignedRevisionBoundaryEvidence) understands. The boundary check
+// skips what it cannot read and relies on the strict parser to reject it; a parser that accepts reals re-opens the gap.
+func checkByteRangeKinds(c *Ctx) {
+	p, r := c.P, c.R
+	fid := "pkg/pdfcpu/sign.byteRangeValues"
+	fn := p.Func(fid)
+	if fn == nil {
+		r.Bad("C28.R4", fid, "anchor", "", "UNRESOLVED-ANCHOR")
+		return
+	}
+	kinds := map[string]bool{}
+	seen := map[*ssa.Function]bool{}
+	var visit func(f *ssa.Function, d int)
+	visit = func(f *ssa.Function, d int) {
+		if f == nil || seen[f] || d > 2 || f.Blocks == nil {
+			return
+		}
+		seen[f] = true
+		eachInstr(f, func(_ *ssa.BasicBlock, _ int, i ssa.Instruction) {
+			switch x := i.(type) {
+			case *ssa.TypeAssert:
+				if strings.HasSuffix(x.X.Type().String(), "types.Object") {
+					kinds[typeNameOf(x.AssertedType)] = true
+				}
+			case *ssa.Call:
+				if g := staticCallee(x); g != nil && isSubject(g) && strings.HasPrefix(FuncID(g), "pkg/pdfcpu/sign.") {
+					visit(g, d+1)
+				}
+			}
+		})
+	}
+	visit(fn, 0)
+	var ks []string
+	for k := range kinds {
+		ks = append(ks, k)
+	}
+	sort.Strings(ks)
+	pos := p.Pos(fn.Pos())
+	if len(ks) == 1 && ks[0] == "Integer" {
+		r.OK("C28.R4", fid, "element kinds", pos, "ByteRange elements are accepted as types.Integer only (the kind the revision-boundary check reads)", true)
+	} else {
+		r.Bad("C28.R4", fid, "element kinds", pos, "the strict ByteRange parser accepts element kinds {"+strings.Join(ks, ",")+"}; the revision-boundary check reads integers only and silently skips anything else, so a ByteRange written with other kinds is validated without the end of the signed range being compared with the file size")
+	}
+}
+
+// checkIncrementsUnadjusted (C28.R5): the increment numbers that reach signature validation are xref-section indices (the
+// Incr of an xref entry, 0 for "current"), handed on unchanged. A value computed by arithmetic (… - 1) can become negative,
+// and a negative increment is neither "current" (== 0: boundary check) nor "historical" (> 0: downgrade), so both protections
+// are skipped.
+func checkIncrementsUnadjusted(c *Ctx) {
+	p, r := c.P, c.R
+	n := 0
+	var isClean func(v ssa.Value, d int) (bool, string)
+	isClean = func(v ssa.Value, d int) (bool, string) {
+		if d > 6 {
+			return true, ""
+		}
+		switch x := v.(type) {
+		case *ssa.Const, *ssa.Parameter, *ssa.FreeVar:
+			return true, ""
+		case *ssa.BinOp:
+			return false, "arithmetic " + x.Op.String()
+		case *ssa.Phi:
+			for _, e := range x.Edges {
+				if ok, why := isClean(e, d+1); !ok {
+					return false, why
+				}
+			}
+			return true, ""
+		case *ssa.UnOp:
+			return true, "" // field / cell load
+		case *ssa.Extract:
+			return isClean(x.Tuple, d+1)
+		case *ssa.Convert:
+			return isClean(x.X, d+1)
+		case *ssa.Call:
+			g := staticCallee(x)
+			if g == nil || !isSubject(g) || g.Blocks == nil {
+				return true, ""
+			}
+			for _, ret := range returnsOf(g) {
+				for _, rv := range ret.Results {
+					if isIntType(rv.Type()) {
+						if ok, why := isClean(rv, d+1); !ok {
+							return false, why + " in " + g.Name()
+						}
+					}
+				}
+			}
+			return true, ""
+		}
+		return true, ""
+	}
+	for _, fn := range p.Funcs {
+		fid := FuncID(fn)
+		if !strings.HasPrefix(fid, "pkg/pdfcpu") {
+			continue
+		}
+		fn := fn
+		eachInstr(fn, func(_ *ssa.BasicBlock, _ int, i ssa.Instruction) {
+			st, ok := i.(*ssa.Store)
+			if !ok {
+				return
+			}
+			fa, ok := st.Addr.(*ssa.FieldAddr)
+			if !ok {
+				return
+			}
+			f := structField(fa.X.Type(), fa.Field)
+			if f == nil || !isIntType(f.Type()) || !(strings.HasSuffix(f.Name(), "Increment") || f.Name() == "Incr") {
+				return
+			}
+			n++
+			construct := fmt.Sprintf("store %s.%s#%d", typeNameOf(fa.X.Type()), f.Name(), n)
+			if ok, why := isClean(st.Val, 0); ok {
+				r.OK("C28.R5", fid, construct, p.Pos(st.Pos()), "an xref-section index handed on unchanged", true)
+			} else {
+				r.Bad("C28.R5", fid, construct, p.Pos(st.Pos()), "the increment number is computed ("+why+") instead of being the xref-section index: it can leave the range {0 = current, >0 = historical} that signature validation distinguishes, and then neither the revision-boundary check nor the historical downgrade runs")
+			}
+		})
+	}
+	if n == 0 {
+		r.Bad("C28.R5", "pkg/pdfcpu", "anchor", "", "UNRESOLVED-ANCHOR: no store into an increment field found")
+	}
 }
